@@ -131,7 +131,8 @@ impl Watch {
                 let ps: Vec<Pattern> = p2.lock().unwrap().iter().filter(|p| p.form == "raw" || p.form == "hex").cloned().collect();
                 let (files, lk) = scan_dir(&dir, &ps);
                 for f in files {
-                    se2.lock().unwrap().insert(f["name"].as_str().unwrap().to_string());
+                    let tag = if f["mode"] == "loose" { format!("{} (loose)", f["name"].as_str().unwrap()) } else { f["name"].as_str().unwrap().to_string() };
+                    se2.lock().unwrap().insert(tag);
                 }
                 if !lk.is_empty() {
                     let mut g = l2.lock().unwrap();
@@ -378,7 +379,8 @@ pub fn run_history(seed: u64, mode: &str, hid: usize) -> Vec<Value> {
     for k in &kinds_present {
         kinds.insert(k.clone(), found_kinds.contains(k));
     }
-    lines.push(json!({"op":"ScanEnd","mode":mode,"files_seen":all_files,"transient_leaks": if mode=="keyring" { json!(wleaks) } else { json!([]) },
+    let transient_loose: Vec<String> = seen.iter().filter(|x| x.ends_with("(loose)")).cloned().collect();
+    lines.push(json!({"op":"ScanEnd","mode":mode,"files_seen":all_files,"transient_loose":transient_loose,"transient_leaks": if mode=="keyring" { json!(wleaks) } else { json!([]) },
                       "kinds": kinds_present, "found_kinds": found_kinds, "steps": step_no}));
     lines
 }
